@@ -71,7 +71,7 @@ def oracle_sizes(c, o):
 # ---- (b) documented action of the modelled classes ---------------------------------------------------
 def gen_action(rng, tier):
     base = C01._gen_cls(list(opzoo.MODELLED), 56, 1400)(rng, tier)
-    # rank-1 finite differences (known finding KF-05: filter_separable raises) are exercised explicitly
+    # rank-1 finite differences (filter_separable raised before the repair) are always exercised
     base.extend(opzoo.fixed_cart_cases())
     base.append({'cls': 'FiniteDifferenceOp', 'shape': [5], 'axes': [0], 'dims': [0], 'mode': 'forward', 'pad_mode': 'zeros', 'rank': 1})
     return base
